@@ -74,8 +74,28 @@ type StaticCfg struct {
 	M      map[string]int
 	T      rty.TUp
 	StaticInner2
+	J  SelfDecoding // a struct with every "decodes itself" method EXCEPT UnmarshalText: still merged field by field
+	JP *SelfDecoding
 }
 type StaticInner2 struct{ W uint8 }
+
+// SelfDecoding implements json.Unmarshaler, yaml (v2 and v3) Unmarshaler, encoding.BinaryUnmarshaler,
+// gob.GobDecoder, sql.Scanner and flag.Value - but not encoding.TextUnmarshaler, the one interface that makes
+// dials treat a struct as a single value
+type SelfDecoding struct {
+	X int
+	Y string
+	Z []string
+}
+
+func (s *SelfDecoding) UnmarshalJSON([]byte) error                  { return nil }
+func (s *SelfDecoding) UnmarshalYAML(func(interface{}) error) error { return nil }
+func (s *SelfDecoding) UnmarshalBinary([]byte) error                { return nil }
+func (s *SelfDecoding) GobDecode([]byte) error                      { return nil }
+func (s *SelfDecoding) Scan(interface{}) error                      { return nil }
+func (s *SelfDecoding) Set(string) error                            { return nil }
+func (s SelfDecoding) String() string                               { return "" }
+func (s SelfDecoding) MarshalJSON() ([]byte, error)                 { return []byte("{}"), nil }
 
 // Two function-local struct types with the SAME NAME, the first text-unmarshalable through an
 // embedded time.Time, the second a plain struct that must be merged field by field.
@@ -397,6 +417,8 @@ func gen(r *coqfmt.Rng, n int, tier string) []json.RawMessage {
 			k = "static"
 		} else if r.Chance(1, 15) {
 			k = "iface"
+		} else if r.Chance(1, 40) {
+			depth, width = 0, 60+r.Intn(80) // very wide structs: per-type bit masks, small fixed-size tables
 		}
 		b, _ := json.Marshal(input{K: k, State: r.U64(), Depth: depth, Width: width})
 		out = append(out, b)
